@@ -89,7 +89,8 @@ T0 = datetime.datetime(2000, 1, 1, tzinfo=datetime.timezone.utc)
 NAMES = ['reason', 'traceback', 'log', 'nämé ☃', 'stdout']
 #: content-type tokens -> (type, subtype, parameters); token 0 is the default of `_make_content_type(None)`
 CTS = [('application', 'octet-stream', {}), ('text', 'plain', {'charset': 'utf8'}),
-       ('text', 'x-thing', {'charset': 'utf8', 'k': 'v 1;2'}), ('image', 'png', {}), ('text', 'plain', {'charset': 'latin-1'})]
+       ('text', 'x-thing', {'charset': 'utf8', 'k': 'v 1;2'}), ('image', 'png', {}), ('text', 'plain', {'charset': 'latin-1'}),
+       ('text', 'x-traceback', {'charset': 'utf8', 'language': 'python'})]
 
 
 def test_id(n):
